@@ -376,21 +376,20 @@ theorem getInt_str (L : LibcNum) (hL : ∀ t, L.strtoll t = Libc.strtoll t) (s :
 
 /-! ### strings read as uint64 (strtoull reference) -/
 
-theorem dropWhile_space_isSpace (t : Bytes) :
-    (t.dropWhile (· == 32)).dropWhile isSpace = t.dropWhile isSpace := by
+theorem dropWhile_isSpace_idem (t : Bytes) :
+    (t.dropWhile isSpace).dropWhile isSpace = t.dropWhile isSpace := by
   induction t with
   | nil => rfl
   | cons c t ih =>
-    by_cases hc : (c == 32) = true
-    · have hs : isSpace c = true := by simp [isSpace, hc]
-      simp only [List.dropWhile_cons, hc, hs, if_true, ih]
+    by_cases hc : isSpace c = true
+    · simp only [List.dropWhile_cons, hc, if_true, ih]
     · simp only [List.dropWhile_cons, hc, Bool.false_eq_true, if_false]
 
-/-- leading blanks do not change what the integer grammar finds -/
+/-- leading white space does not change what the integer grammar finds -/
 theorem scanInt_spaces (t : Bytes) :
-    (scanInt t).map (fun r => (r.neg, r.mag)) = (scanInt (t.dropWhile (· == 32))).map (fun r => (r.neg, r.mag)) := by
+    (scanInt t).map (fun r => (r.neg, r.mag)) = (scanInt (t.dropWhile isSpace)).map (fun r => (r.neg, r.mag)) := by
   unfold scanInt
-  simp only [dropWhile_space_isSpace]
+  simp only [dropWhile_isSpace_idem]
   cases scanBody (t.dropWhile isSpace) with
   | none => rfl
   | some x => obtain ⟨a, b, c⟩ := x; rfl
@@ -424,7 +423,7 @@ theorem scanInt_neg_head {b : Bytes} {r : IntScan} (h : scanInt b = some r) :
           simp only [List.head?_cons, Option.some.injEq]
           intro hc; exact h45 t (by rw [hc])
 
-theorem scanInt_of_spaces {t : Bytes} {sc : IntScan} (h : scanInt (t.dropWhile (· == 32)) = some sc) :
+theorem scanInt_of_spaces {t : Bytes} {sc : IntScan} (h : scanInt (t.dropWhile isSpace) = some sc) :
     ∃ r, scanInt t = some r ∧ r.neg = sc.neg ∧ r.mag = sc.mag := by
   have := scanInt_spaces t
   rw [h] at this
@@ -435,7 +434,7 @@ theorem scanInt_of_spaces {t : Bytes} {sc : IntScan} (h : scanInt (t.dropWhile (
     simp only [Option.map_some, Option.some.injEq, Prod.mk.injEq] at this
     exact ⟨r, rfl, this.1, this.2⟩
 
-theorem scanInt_none_of_spaces {t : Bytes} (h : scanInt (t.dropWhile (· == 32)) = none) : scanInt t = none := by
+theorem scanInt_none_of_spaces {t : Bytes} (h : scanInt (t.dropWhile isSpace) = none) : scanInt t = none := by
   have := scanInt_spaces t
   rw [h] at this
   cases hs : scanInt t with
@@ -458,6 +457,24 @@ theorem parseTail_conv (r : StrRes) (tags : List String) (h : r.consumed ≠ 0)
   simp only []
   rw [if_neg this, if_pos h]
 
+/-- a successful parse has stored its value: the accessor never reads it uninitialised -/
+theorem useParsed_parseTail_ok (r : StrRes) (tags : List String) (site : String) :
+    ∃ x, useParsed (parseTail r tags) site = .ok x := by
+  by_cases h : r.consumed = 0
+  · rw [parseTail_noconv r tags h]; exact ⟨_, rfl⟩
+  · by_cases h2 : r.val ≠ 0 ∨ r.errno = .none
+    · rw [parseTail_conv r tags h h2]; exact ⟨_, rfl⟩
+    · unfold parseTail
+      have : (r.val = 0 ∧ r.errno ≠ .none) ∨ r.consumed = 0 := by
+        left; constructor
+        · by_cases hv : r.val = 0
+          · exact hv
+          · exact absurd (Or.inl hv) h2
+        · intro he; exact h2 (Or.inr he)
+      simp only []
+      rw [if_pos this]
+      exact ⟨_, rfl⟩
+
 /-- the reference strtoull in closed form -/
 theorem strtoull_some {b : Bytes} {sc : IntScan} (h : scanInt b = some sc) :
     Libc.strtoull b =
@@ -467,35 +484,25 @@ theorem strtoull_some {b : Bytes} {sc : IntScan} (h : scanInt b = some sc) :
   unfold Libc.strtoull; rw [h]
 
 theorem getUint64_str (L : LibcNum) (hL : ∀ t, L.strtoull t = Libc.strtoull t) (s : Bytes) :
-    ∃ r, getUint64 L (.str s) = .ok r ∧
-      (r.tags = [] → (ofTextUnsigned s).allows r.val (r.err.after .none)) := by
+    ∃ r, getUint64 L (.str s) = .ok r ∧ r.tags = [] ∧
+      (ofTextUnsigned s).allows r.val (r.err.after .none) := by
   have e3 : UINT64_MAX = 18446744073709551615 := rfl
   simp only [getUint64, parseUint64, hL]
   unfold ofTextUnsigned
-  generalize hb : (cstr s).dropWhile (· == 32) = b
+  generalize hb : (cstr s).dropWhile isSpace = b
   split
-  · -- b = '-' :: _
+  · -- b = '-' :: _ : refused with EINVAL
     rename_i rest
     simp only [useParsed]
-    refine ⟨_, rfl, ?_⟩
-    intro htags
-    cases hsc : scanInt (45 :: rest) with
-    | none => rw [hsc] at htags; simp at htags
-    | some sc =>
-      rw [hsc] at htags
-      simp only [] at htags
-      have hmag : sc.mag = 0 := by
-        by_cases hm : sc.mag = 0
-        · exact hm
-        · simp [hm] at htags
-      have hneg : sc.neg = true := by
-        rw [scanInt_neg_head hsc]
-        simp [isSpace]
-      rw [← hb] at hsc
-      obtain ⟨r, hr, hn, hm⟩ := scanInt_of_spaces hsc
-      rw [hr]
-      simp only [hn, hneg, hm, hmag, if_true]
-      exact ⟨rfl, Or.inr (by simp [ErrEff.after])⟩
+    refine ⟨_, rfl, rfl, ?_⟩
+    cases hsc : scanInt (cstr s) with
+    | none => exact ⟨rfl, Or.inr (by simp [ErrEff.after])⟩
+    | some r =>
+      have hidem : (45 :: rest).dropWhile isSpace = 45 :: rest := by rw [← hb]; exact dropWhile_isSpace_idem _
+      have hneg : r.neg = true := by
+        rw [scanInt_neg_head hsc, hb]; rfl
+      simp only [hneg, if_true]
+      split <;> exact ⟨rfl, Or.inr (by simp [ErrEff.after])⟩
   · rename_i hnot
     cases hsc : scanInt b with
     | none =>
@@ -508,55 +515,32 @@ theorem getUint64_str (L : LibcNum) (hL : ∀ t, L.strtoull t = Libc.strtoull t)
       have hc := scanInt_consumed_pos hsc
       have hne : sc.consumed ≠ 0 := by omega
       have hnh := scanInt_neg_head hsc
+      have hidem : b.dropWhile isSpace = b := by rw [← hb]; exact dropWhile_isSpace_idem _
+      -- the text does not start with '-', so the scan found no minus sign
+      have hng : sc.neg = false := by
+        cases hsn : sc.neg with
+        | false => rfl
+        | true =>
+          rw [hsn, hidem] at hnh
+          have h45 := hnh.mp rfl
+          cases b with
+          | nil => cases h45
+          | cons c t =>
+            simp only [List.head?_cons, Option.some.injEq] at h45
+            exact absurd (by rw [h45]) (hnot t)
       have hsc' := hsc
       rw [← hb] at hsc'
       obtain ⟨r, hr, hn, hm⟩ := scanInt_of_spaces hsc'
       rw [hr, strtoull_some hsc]
-      simp only []
+      simp only [hn, hng, hm, Bool.false_eq_true, if_false, false_and]
       by_cases h1 : (sc.mag : Int) > UINT64_MAX
       · rw [if_pos h1, parseTail_conv _ _ hne (Or.inl (by simp [e3]))]
         simp only [useParsed, if_true]
-        refine ⟨_, rfl, ?_⟩
-        intro htags
-        simp only [] at htags
-        have hng : sc.neg = false := by
-          cases hsn : sc.neg with
-          | false => rfl
-          | true =>
-            rw [hsn] at hnh
-            have := hnh.mp rfl
-            simp [this, e3] at htags
-        rw [hn, hng]
-        simp only [Bool.false_eq_true, if_false]
-        rw [ofInt_above uint64 _ (by show UINT64_MAX < (r.mag : Int); omega) (by decide)]
-        exact ⟨rfl, Or.inr (by simp [ErrEff.after])⟩
-      · rw [if_neg h1]
-        by_cases h2 : sc.neg = true ∧ sc.mag ≠ 0
-        · rw [if_pos h2]
-          have hv : UINT64_MAX + 1 - (sc.mag : Int) ≠ 0 := by omega
-          rw [parseTail_conv _ _ hne (Or.inl hv)]
-          simp only [useParsed, if_true]
-          refine ⟨_, rfl, ?_⟩
-          intro htags
-          exfalso
-          simp only [] at htags
-          have := hnh.mp h2.1
-          simp [this, hv] at htags
-        · rw [if_neg h2, parseTail_conv _ _ hne (Or.inr rfl)]
-          simp only [useParsed, if_true]
-          refine ⟨_, rfl, ?_⟩
-          intro _
-          rw [hn, hm]
-          cases hsn : sc.neg with
-          | false =>
-            simp only [Bool.false_eq_true, if_false]
-            rw [ofInt_in uint64 _ (by show (0:Int) ≤ (sc.mag : Int); omega) (by show (sc.mag : Int) ≤ UINT64_MAX; omega)]
-            exact ⟨rfl, Or.inr (by simp [ErrEff.after])⟩
-          | true =>
-            have hm0 : sc.mag = 0 := by
-              by_cases hm0 : sc.mag = 0
-              · exact hm0
-              · exact absurd ⟨hsn, hm0⟩ h2
-            simp only [if_true, hm0]
-            exact ⟨by simp, Or.inr (by simp [ErrEff.after])⟩
+        rw [ofInt_above uint64 _ (by show UINT64_MAX < (sc.mag : Int); omega) (by decide)]
+        exact ⟨_, rfl, rfl, rfl, Or.inr (by simp [ErrEff.after])⟩
+      · rw [if_neg h1, parseTail_conv _ _ hne (Or.inr rfl)]
+        simp only [useParsed, if_true]
+        rw [ofInt_in uint64 _ (by show (0:Int) ≤ (sc.mag : Int); omega) (by show (sc.mag : Int) ≤ UINT64_MAX; omega)]
+        exact ⟨_, rfl, rfl, rfl, Or.inr (by simp [ErrEff.after])⟩
+
 end JsonC.Num
